@@ -95,6 +95,13 @@ RECV_MODELS = [
 ]
 
 
+# flash loans with values (Flash.tla): largest in-bracket borrow / withdrawal with which the end instruction still passes
+FLASH_MODELS = [
+    {"name": "flash", "module": "MC_Flash.tla", "cfg": {"quick": "MC_FlashQuick.cfg", "thorough": "MC_FlashThorough.cfg"},
+     "setup": "setups/riskmodel.json", "init_from_setup": True, "timeout": {"quick": 900, "thorough": 10000}},
+]
+
+
 RISKCFG_MODELS = [
     {"name": "riskcfg", "module": "MC_RiskCfg.tla", "cfg": {"quick": "MC_RiskCfgQuick.cfg", "thorough": "MC_RiskCfgThorough.cfg"},
      "setup": "setups/riskcfg.json", "init_from_setup": True, "timeout": {"quick": 900, "thorough": 10000}},
@@ -190,7 +197,7 @@ PROPS = {
     "C10": {"models": [txm("Recv"), txm("Recv2", "setups/tx.json"), txm("Recv3"), txm("RecvP", "setups/tx.json")] + RECV_MODELS, "drivers": ADMIN_DRIVERS + LIQ_DRIVERS + RECV_DRIVERS + KAMINO_DRIVERS, "nontrivial": tx_nontrivial,
             "rule": "each instruction list executed as one atomic transaction on the real program is one evaluation; all are non-trivial; distinct by (instruction list, result)",
             "min_nontrivial": 1000},
-    "C11": {"models": [txm("Flash"), txm("Flash3"), txm("FlashW")], "drivers": ADMIN_DRIVERS, "nontrivial": tx_nontrivial,
+    "C11": {"models": [txm("Flash"), txm("Flash3"), txm("FlashW")] + FLASH_MODELS, "drivers": ADMIN_DRIVERS, "nontrivial": tx_nontrivial,
             "rule": "each instruction list executed as one atomic transaction on the real program is one evaluation; all are non-trivial; distinct by (instruction list, result)",
             "min_nontrivial": 1000},
     "C12": risk_prop2(["configure_bank", "configure_interest", "configure_limits", "configure_emode", "clone_emode", "setup_emissions", "update_emissions",
